@@ -203,76 +203,204 @@ def signedness(ck, agg):
                 "the encoder keeps 24 bits of int(value*100) (two's complement for negative values) but the decoder pads the 3 data bytes with a constant zero byte before "
                 "struct.unpack(%r): the result can never be negative, e.g. -1.0 C decodes as 167771.16" % (fmt,), ups[0].node)
         agg.add("R19.4", f_get, "the decoder reads the same byte order the encoder wrote", (enc_fmt or "").lstrip("<=")[:1].lower() == fmt.lstrip("<=")[:1].lower() and order in ("<", "", "="), "encoder %r decoder %r" % (enc_fmt, fmt))
-    # battery and TX power: same code on both sides
-    pairs = []
-    b = P.cls("fake_ble", "BatteryServiceData")
-    src_set = ast.unparse(P.method(b, "data", "set").node)
-    agg.add("R19.4", P.method(b, "data", "set"), "battery level is one unsigned byte on both sides", "'B'" in src_set and "self._data[0]" in ast.unparse(P.method(b, "data", "get").node), "battery codec changed")
-    u = P.cls("fake_ble", "UrlServiceData")
-    g, s = ast.unparse(P.method(u, "pa_level_at_1_meter", "get").node), ast.unparse(P.method(u, "pa_level_at_1_meter", "set").node)
-    agg.add("R19.4", P.method(u, "pa_level_at_1_meter", "get"), "Eddystone TX power is a signed byte on both sides", "'>b'" in g and "'>b'" in s, "TX power codec: get %r set %r" % ("'>b'" in g, "'>b'" in s))
-    return 3
+    n_sc = scalar_codecs(ck, agg)
+    return 3 + n_sc
 
 
-def rx_queue_discipline(ck, agg):
-    """R19.5: rx_queue is appended only by available() and consumed at the head only by read()"""
+def _enc_field(v):
+    """(size, signed, order) of the last field of an encoded bytes value: a struct.pack field or literal byte(s)"""
+    if not isinstance(v, Bytes) or not v.parts:
+        return None
+    tag = v.parts[-1][0]
+    if tag[0] == "pack":
+        order, codes = parse_fmt(tag[1])
+        c = [x for x in codes if x != "x"][-1]
+        return (STRUCT_CODES[c][0], STRUCT_CODES[c][1] is not None and STRUCT_CODES[c][1] < 0, "big" if order in (">", "!") else "little")
+    if tag[0] in ("items", "const"):
+        return (1, False, "little")
+    return None
+
+
+def _dec_field(v):
+    """(size, signed, order) of a decoded value: struct.unpack field or a plain byte read"""
+    v = norm(v)
+    if not isinstance(v, Sym):
+        return None
+    if v.attrs.get("unpack"):
+        fmt, k = v.attrs["unpack"][:2]
+        order, codes = parse_fmt(fmt)
+        c = [x for x in codes if x != "x"][k]
+        return (STRUCT_CODES[c][0], STRUCT_CODES[c][1] is not None and STRUCT_CODES[c][1] < 0, "big" if order in (">", "!") else "little")
+    if "at" in v.attrs and "of" in v.attrs:
+        return (1, False, "little")
+    return None
+
+
+def scalar_codecs(ck, agg):
+    """R19.4: one-number service data (battery level, Eddystone TX power): the field the setter encodes and the field the getter decodes have
+    the same width and signedness (byte order matters only beyond one byte) - read from the abstract values, not from the source text"""
     P = ck.prog
     n = 0
-    for f in P.all_funcs():
-        for node in iter_own_nodes(f.node):
-            if isinstance(node, ast.Attribute) and node.attr == "rx_queue":
-                pass
-        parents = {}
-        for node in ast.walk(f.node):
-            for ch in ast.iter_child_nodes(node):
-                parents[id(ch)] = node
-        for node in ast.walk(f.node):
-            if not (isinstance(node, ast.Attribute) and node.attr == "rx_queue"):
+    for clsname, prop, field, want_signed, what in (("BatteryServiceData", "data", "_data", False, "battery level is one unsigned byte on both sides"),
+                                                    ("UrlServiceData", "pa_level_at_1_meter", "_type", True, "Eddystone TX power is a signed byte on both sides")):
+        n += 1
+        cls = P.cls("fake_ble", clsname)
+        f_set, f_get = P.method(cls, prop, "set"), P.method(cls, prop, "get")
+        it = Interp(P, Model(), Limits())
+        st = State()
+        obj = st.alloc("obj", cls=cls, label="svc")
+        o0 = [x for x in it.run(cls.lookup("__init__")[1], cls, obj, [], st=st) if x.kind == "return"][0]
+        ck.absorb(it)
+        encs = set()
+        it = Interp(P, Model(), Limits())
+        for out in it.run(f_set, cls, obj, [Sym("value", "int", rng=(-128, 255) if want_signed else (0, 255))], st=o0.state.fork()):
+            if out.kind != "return":
                 continue
-            par = parents.get(id(node))
-            gp = parents.get(id(par)) if par is not None else None
+            ef = _enc_field(out.state.heap[obj.ident].fields.get(field))
+            if ef is not None:
+                encs.add(ef)
+        ck.absorb(it)
+        ck.analysed(f_set)
+        decs = set()
+        st2 = o0.state.fork()
+        if field == "_data":
+            st2.heap[obj.ident].fields[field] = Bytes([(("sym", "data"), Const(1))], "bytes")
+        it = Interp(P, Model(), Limits())
+        for out in it.run(f_get, cls, obj, [], st=st2):
+            if out.kind == "return":
+                df = _dec_field(out.value)
+                if df is not None:
+                    decs.add(df)
+        ck.absorb(it)
+        ck.analysed(f_get)
+        if not encs or not decs:
+            raise AnalysisError("%s.%s: encoded / decoded field not understood (enc %r, dec %r)" % (clsname, prop, encs, decs))
+        same = len(encs) == 1 and len(decs) == 1 and list(encs)[0][:2] == list(decs)[0][:2] and (list(encs)[0][0] == 1 or list(encs)[0][2] == list(decs)[0][2])
+        agg.add("R19.4", f_get, what, same and list(encs)[0][0] == 1 and list(encs)[0][1] == want_signed,
+                "setter encodes %r, getter decodes %r  (size, signed, byte order)" % (sorted(encs), sorted(decs)))
+    return n
+
+
+def _mutates_queue(f):
+    from .common import attr_mutations
+    return bool(attr_mutations(f.node, "rx_queue"))
+
+
+def rx_queue_discipline(ck, agg, b):
+    """R19.5: read() hands out the head and removes exactly it (decided by running read() abstractly on a queue of three distinct elements -
+    `del q[0]`, `q.pop(0)` and slicing are all fine, `q.pop()` is not); nothing but available(), read() and the constructor changes rx_queue
+    (call-graph rule: a mutator is reachable from no other public entry point)"""
+    from ..model import reachable
+    P = ck.prog
+    cls = b.cls
+    f_read = P.method(cls, "read")
+    n = 0
+    for k in (0, 1, 3):
+        n += 1
+        st = b.fresh({})
+        elems = [Sym(("elem", i), "obj", notnone=True) for i in range(k)]
+        q = st.alloc("list", items=list(elems))
+        st.heap[b.ref.ident].fields["rx_queue"] = q
+        it = Interp(P, b.model, Limits())
+        outs = it.run(f_read, cls, b.ref, [], st=st)
+        ck.absorb(it)
+        ck.analysed(f_read)
+        for out in outs:
+            if out.kind != "return":
+                agg.add("R19.5", f_read, "read() never raises", False, "queue of %d: raises %s" % (k, out.value.exc), out.value.node)
+                continue
+            q2 = out.state.heap[b.ref.ident].fields.get("rx_queue")
+            left = out.state.heap[q2.ident].items if isinstance(q2, Ref) and q2.kind == "list" and not out.state.heap[q2.ident].opaque else None
+            lk = [norm(x).key() for x in left] if left is not None else None
+            if k == 0:
+                agg.add("R19.5", f_read, "read() on an empty queue returns None and leaves it empty", isinstance(norm(out.value), Const) and norm(out.value).v is None and lk == [], "returns %r, queue %r" % (out.value, left))
+            else:
+                agg.add("R19.5", f_read, "read() returns the oldest queued element", hasattr(out.value, "key") and norm(out.value).key() == elems[0].key(),
+                        "queue of %d elements (oldest first): read() returns %r" % (k, out.value))
+                agg.add("R19.5", f_read, "read() removes exactly the element it returns and keeps the order of the rest", lk == [e_.key() for e_ in elems[1:]],
+                        "queue of %d elements: afterwards it holds %r" % (k, left))
+    # who may change the queue
+    owners = {"available", "read", "__init__", "__enter__"}
+    muts = []
+    for c in cls.mro:
+        fis = list(c.methods.values()) + [f for p in c.props.values() for f in (p.getter, p.setter) if f is not None and f.cls is c]
+        for fi in fis:
+            if _mutates_queue(fi):
+                muts.append(fi)
+    for c in cls.mro:
+        fis = list(c.methods.values()) + [f for p in c.props.values() for f in (p.getter, p.setter) if f is not None and f.cls is c]
+        for fi in fis:
+            if fi.name in owners or (fi.name.startswith("_") and not fi.name.startswith("__")):
+                continue
             n += 1
-            ok, why = True, ""
-            if isinstance(par, ast.Attribute) and isinstance(gp, ast.Call) and gp.func is par:
-                if par.attr == "append":
-                    ok = f.name == "available"
-                    why = "appended outside available()"
-                elif par.attr in ("pop", "insert", "remove", "clear", "extend", "sort", "reverse"):
-                    ok = False
-                    why = "list method .%s() on rx_queue" % par.attr
-            elif isinstance(par, ast.Subscript) and par.value is node:
-                head = isinstance(par.slice, ast.Constant) and par.slice.value == 0
-                if isinstance(par.ctx, ast.Del):
-                    ok = head and f.name == "read"
-                    why = "only read() may remove, and only the head"
-                elif isinstance(par.ctx, ast.Load):
-                    ok = head and f.name == "read"
-                    why = "only read() may index rx_queue, and only the head"
-                else:
-                    ok = False
-                    why = "element of rx_queue overwritten"
-            elif isinstance(par, (ast.Assign, ast.AnnAssign)) and (node in getattr(par, "targets", []) or getattr(par, "target", None) is node):
-                ok = f.name == "__init__"
-                why = "rx_queue re-bound outside the constructor"
-            agg.add("R19.5", f, "use of rx_queue `%s` keeps arrival order, each element once" % ast.unparse(par if par is not None else node)[:50], ok, why, node)
+            reach = {g for g, _r in reachable(P, fi, cls, stop=lambda g, r: g.name in owners and g is not fi)}
+            bad = [m for m in muts if m in reach and m.name not in owners]
+            if _mutates_queue(fi):
+                bad.append(fi)
+            agg.add("R19.5", fi, "rx_queue is changed only by available(), read() and the constructor", not bad,
+                    "%s can change rx_queue through %s" % (fi.qualname, ", ".join(sorted({m.qualname for m in bad}))))
+    agg.add("R19.5", f_read, "rx_queue has mutators (anchor)", bool(muts), "no function changes rx_queue")
     return n
 
 
 def url_tables(ck, agg):
-    """R19.6: URL codec: encoder and decoder walk the same two tables; slash forms come first"""
+    """R19.6: the URL codec, read from the string operations the two directions perform (abstract run; `replace` calls with constant
+    arguments are events): scheme prefixes are expanded/compressed once, at the start only; both directions use the Eddystone tables;
+    the encoder replaces a longer expansion before any expansion that is its prefix"""
     P = ck.prog
     u = P.cls("fake_ble", "UrlServiceData")
     g, s = P.method(u, "data", "get"), P.method(u, "data", "set")
-
-    def tables(f):
-        return [x.attr for x in ast.walk(f.node) if isinstance(x, ast.Attribute) and x.attr.startswith("codex_")]
-    agg.add("R19.6", g, "URL encoder and decoder use the same expansion tables in the same order", tables(g) == tables(s) and len(tables(g)) == 2, "decoder %r encoder %r" % (tables(g), tables(s)))
-    pre = u.class_attrs.get("codex_prefix")
-    try:
-        pv = P.fold_const(u.module, pre)
-    except Exception:
-        pv = None
-    agg.add("R19.6", (u.module.relpath, "UrlServiceData"), "prefix table = Eddystone URL scheme prefixes in specification order", pv == ["http://www.", "https://www.", "http://", "https://"], "codex_prefix %r" % (pv,))
+    pref, exp = TB.URL_SCHEME_PREFIXES, TB.URL_EXPANSIONS
+    pairs = {}
+    for direction, f, args in (("decoder", g, []), ("encoder", s, [Sym("url", "str", notnone=True)])):
+        it = Interp(P, Model(), Limits(max_paths=4000, concrete_loop=40))
+        st = State()
+        obj = st.alloc("obj", cls=u, label="svc")
+        st.heap[obj.ident].fields["_data"] = Bytes([(("sym", "data"), Sym("D", "int", rng=(0, None)))], "bytes")
+        outs = it.run(f, u, obj, args, st=st)
+        ck.absorb(it)
+        ck.analysed(f)
+        seen = set()
+        for out in outs:
+            if out.kind != "return":
+                continue
+            reps = [e for e in out.trace if e.kind == "strop" and e.data[0] == "replace"]
+            npre = 0
+            order = []
+            for e in reps:
+                a = e.data[2]
+                if len(a) < 2 or not all(isinstance(norm(x), Const) for x in a[:2]):
+                    continue
+                old, new = norm(a[0]).v, norm(a[1]).v
+                code, text = (old, new) if direction == "decoder" else (new, old)
+                if not (isinstance(code, str) and len(code) == 1 and isinstance(text, str)):
+                    continue
+                cnt = const_of(norm(a[2])) if len(a) > 2 else None
+                is_prefix = text in pref.values() or "://" in text
+                seen.add((ord(code), text, is_prefix))
+                if is_prefix:
+                    npre += 1
+                    agg.add("R19.6", f, "a URL scheme prefix is %s once only (count 1): the same byte later in the URL is an expansion code, not a scheme" % ("expanded" if direction == "decoder" else "compressed"),
+                            cnt == 1, "%s: replace(%r, %r%s) replaces every occurrence" % (direction, old, new, "" if cnt is None else ", %r" % cnt), e.node)
+                    guard = any(c.kind in ("cond", "known") and c.data[0] is True and c.seq < e.seq and isinstance(norm(c.data[1]) if not isinstance(c.data[1], tuple) else None, Sym)
+                                and isinstance(norm(c.data[1]).name, tuple) and norm(c.data[1]).name[0] == "startswith" and norm(c.data[1]).name[2] == old for c in out.trace)
+                    agg.add("R19.6", f, "a URL scheme prefix is handled only where the URL starts with it", guard, "%s: replace(%r, ..) without a successful startswith(%r) test" % (direction, old, old), e.node)
+                else:
+                    order.append(text)
+                    agg.add("R19.6", f, "expansion codes are handled at every position", cnt is None, "%s: replace(%r, %r, %r) limits the count" % (direction, old, new, cnt), e.node)
+            if direction == "decoder":
+                agg.add("R19.6", f, "at most one scheme prefix is expanded per URL", npre <= 1, "%d prefix expansions on one path" % npre)
+            else:
+                for i, t1 in enumerate(order):
+                    for t2 in order[:i]:
+                        agg.add("R19.6", f, "the encoder compresses a longer expansion before a shorter one it starts with (.com/ before .com)", not (t1.startswith(t2) and t1 != t2),
+                                "%r is compressed before %r" % (t2, t1))
+        pairs[direction] = seen
+        got_p = {c: t for c, t, isp in seen if isp}
+        got_e = {c: t for c, t, isp in seen if not isp}
+        agg.add("R19.6", f, "the %s uses the Eddystone scheme-prefix table" % direction, got_p == pref, "%s prefixes %r" % (direction, got_p))
+        agg.add("R19.6", f, "the %s uses the Eddystone expansion table" % direction, got_e == exp, "%s expansions %r" % (direction, got_e))
+    agg.add("R19.6", g, "URL encoder and decoder use the same code tables", pairs["decoder"] == pairs["encoder"], "decoder-only %r, encoder-only %r" % (sorted(pairs["decoder"] - pairs["encoder"]), sorted(pairs["encoder"] - pairs["decoder"])))
     return 2
 
 
@@ -293,7 +421,7 @@ def run(ck):
     n1, sites = escape(ck, agg, b)
     n2 = service_layout(ck, agg)
     n3 = signedness(ck, agg)
-    n4 = rx_queue_discipline(ck, agg)
+    n4 = rx_queue_discipline(ck, agg, b)
     n5 = url_tables(ck, agg)
     agg.flush()
     ck.floor("R19.1", "available() paths", n1, 5)
